@@ -48,6 +48,10 @@ class TaggedLiteral(ILispObject, ILookup[K, T]):
             self._hash = hash((self._tag, self._form))
         return self._hash
 
+    def __reduce__(self):
+        # the cached hash depends on this process's string hash seed: do not pickle it
+        return TaggedLiteral, (self._tag, self._form)
+
     def __getitem__(self, item):
         return self.val_at(item)
 
